@@ -252,7 +252,7 @@ def run(ctx):
                    ('%s::from_bytes in %s is fed from the output buffer of %s: public and secret halves cut out of raw KDF / hash / RNG output are not a key pair — '
                     'no signature made with such an identity verifies under its public key in the release build' % (m.group(1), b.root.rsplit('::', 1)[-1], srcs[0].short())) if srcs else
                    '%s::from_bytes in %s takes caller-supplied / stored key bytes' % (m.group(1), b.root.rsplit('::', 1)[-1]), entry=b.root)
-    ctx.floor('KEYPAIR', 10)
+    ctx.floor('KEYPAIR', 6)
     gen = prog.body('identity::node_identity::NodeIdentity::generate')
     kg = [c for c in gen.calls(r'::generate_ml_dsa_keypair$|MlDsaOperations>::generate_keypair$')]
     okg = False
